@@ -19,4 +19,4 @@ PROP = {'engine': 'stack',
                'interop server; exploration of sampled offsets, not of every interleaving inside Reserve/Release.',
  'level_note': "extra callers are placed by latches and sleeps; orders inside the interop server's mutex-protected sections are not schedulable",
  'technique': 'property-based testing (rapid): generated caller schedules, metamorphic expectation for the first caller'}
-PROP['rule'] += " Thorough tier: a fifth of the cases additionally run on hosts built with the race detector (a reported race ends the host and is judged as a crash of the emulator)."
+PROP['rule'] += " Thorough tier: a fifth of the cases additionally run on hosts built with the race detector (judged there: data races on Go maps inside the emulator, which the Go runtime turns into a fatal error, and host deaths)."
